@@ -128,7 +128,7 @@ def run(ctx):
             ctx.violation('%s:%s/%s' % (kind, tgt, c), 'C15 fails on the implementation: ' + msgs[0],
                           dict(harness='h_%s.cpp' % ('stack' if kind == 'stack' else 'pool'), config=c, script=r['case']['script'].split('\n')))
     # stateless low-level allocators: one report at exit with the process-wide net (actual sizes incl. fences)
-    ll = 0
+    ll = 0; glines = []
     for c in cfgs:
         exe = build.build_harness('llleak', c, ['h_llleak.cpp'])
         fence = build.CONFIGS[c]['FENCE'] and build.CONFIGS[c]['FILL']
@@ -142,13 +142,20 @@ def run(ctx):
                 net = sum(size + i + per_node for i in range(nrel, nalloc))
                 exp = [net] if net else []
                 got = [int(l.split()[-1]) for l in rep]
+                glines.append('g %d %d %d %d observed=[%s]' % (1 if per_node else 0, nalloc, nrel, size, ','.join(str(x) for x in got)))
                 if got != exp and len(ctx.violations) < 3:
                     ctx.violation('lowlevel:%s:%d:%d:%d/%s' % (a, nalloc, nrel, size, c),
                                   'C15 fails on the implementation: %s_allocator leaked %d bytes net but reported %s at exit' % (a, net, got),
                                   dict(harness='h_llleak.cpp', config=c, args=[a, nalloc, nrel, size], output=out))
+    # the same processes against the model of the process-wide checker (Leak.gl_run)
+    if rexe and glines:
+        rr = subprocess.run([rexe, 'leak', 'global'], input='\n'.join(glines) + '\n', stdout=subprocess.PIPE, text=True).stdout
+        for ln in rr.split('\n'):
+            if ln.startswith('DIVERGE'):
+                div += 1; ctx.tie_broken.append('correspondence (process-wide checker): ' + ln[:300])
     ctx.tie_broken = ctx.tie_broken[:6]
     ctx.cov.update(dict(
-        tie=dict(kind='leak handler captured; sequence of reported amounts of every history must equal Leak.lrun on the same operations; low-level allocators run in child processes and must report the net once during static destruction',
+        tie=dict(kind='leak handler captured; sequence of reported amounts of every history must equal Leak.lrun on the same operations; low-level allocators run in child processes and must report the net once during static destruction, as Leak.gl_run (process-wide checker: counter objects, shared count) does on the same operations',
                  configs=cfgs, histories_by_kind=per, histories=len(cases), operations=ops, reports_observed=reports, silent_histories=silent,
                  lowlevel_processes=ll, divergences=div),
         evaluations=len(cases) + ll, distinct_nontrivial=len(set(c['script'] for c in cases)),
